@@ -185,7 +185,7 @@ def _pow2_gate(U, module, fname, setup, stop_names):
         hints = []
         for f in qs:
             # instances of the log2 / pow2 axioms at the exponent computed by the code and at a candidate exponent k
-            for j in (f, f + 1, k, k + 1):
+            for j in (z3.IntVal(0), f, f + 1, k, k + 1):
                 rj = z3.ToReal(j)
                 hints += [z3.Implies(j >= 0, T.pow2r(rj) == z3.ToReal(T.pow2(j))),
                           (rj <= T.log2(z3.ToReal(n))) == (T.pow2r(rj) <= z3.ToReal(n)), T.pow2r(rj) > 0]
